@@ -519,11 +519,12 @@ pub fn finish(ctx: &Ctx, level: &str, rule: &str, exhaustive: bool, states: Opti
         hits.values().map(|v| v.0).sum::<usize>(),
         ctx.elapsed()
     );
-    if !machinery.is_empty() {
-        return 2;
-    }
+    // a violation is a verdict even if a vacuity guard tripped as well (often because of it)
     if !violations.is_empty() {
         return 1;
+    }
+    if !machinery.is_empty() {
+        return 2;
     }
     0
 }
